@@ -34,3 +34,6 @@ Theorem c08_tie_multi_delimiter : delimiter = String.append (String.concat "" (r
 Proof. exact tie_multi_delimiter. Qed.
 Theorem c08_tie_multi_json : multi_stdout true [(0%Z, "A"); (0%Z, "B")] = String.append src_multi_json_open (String.append "A" (String.append src_multi_json_sep (String.append "B" (String.append src_multi_json_close nl)))).
 Proof. exact tie_multi_json. Qed.
+(* the rank comparison of main() as it reads now (T1c translation) is the model's merge, for all statuses of the ranked list *)
+Theorem c08_tie_rank_update : forall ret w, In ret ranked_return_codes -> In w ranked_return_codes -> merge ret w = src_rank_update ret w.
+Proof. exact tie_rank_update. Qed.
